@@ -78,3 +78,48 @@ def run(P, C, tier):
     C.ob("R1", "lost-update", same_actor or (conditional and checked) or row_lock, nw.loc(),
          "serialisation of read and write of one row: same actor=%s, UPDATE conditional on the read version=%s with changed-row check=%s, per-row lock=%s -- two in-flight "
          "mutations of one row both read version v, both are acknowledged, the second UPDATE overwrites the first one's other fields" % (same_actor, conditional, checked, row_lock))
+    r3_room_definitions(P, C)
+
+
+def r3_room_definitions(P, C):
+    """clause that holds today: changes of a room DEFINITION in flight together are serialised by the authorisation actor"""
+    from rules.c01 import arm_of
+    C.rule("R3", "pipelined or concurrent mutations of one room definition are applied one after another: when the writer reports the commit, the authorisation actor "
+                 "computes the room it installs from the mutation and the CURRENT in-memory room (validate_mutation in the same arm), never from a room computed "
+                 "before the write was queued (two in-flight mutations would both derive from the same old room and the later install would drop the earlier change)")
+    try:
+        pm = P.body("AuthorisationService::process_message::{closure#0}")
+    except mir.MissingAnchor as e:
+        C.anchor_missing("R3", "process_message", e)
+        return
+    C.saw(pm)
+    n = 0
+    for bi, t in pm.calls_to(r"RoomAuthorisations::add_room$"):
+        arm = arm_of(pm, bi)
+        if arm not in ("RoomMutationWrite", "RoomMutationStreamWrite"):
+            continue
+        n += 1
+        g = pm.guards(bi, expand_vars=True)
+        revalidated = False
+        for s, vals, term in g:
+            dv = mir.discr_variants(term, vals)
+            if dv and dv[1] == ["Ok"] and mir.has_call(dv[0], r"RoomAuthorisations::validate_mutation$") is not None:
+                # the validation is made in this arm (after the commit was reported), on the actor's own state
+                vc = mir.has_call(dv[0], r"RoomAuthorisations::validate_mutation$")
+                revalidated = arm_of(pm, vc[3]) == arm
+        # the installed room is an element of that validation's result
+        room_arg = pm.call_args(bi, expand_vars=True)[1]
+        from_validation = mir.has_call(room_arg, r"RoomAuthorisations::validate_mutation$") is not None
+        if not from_validation:
+            # `for room in rooms { add_room(room.clone()) }` with `rooms` the Ok payload of the validation
+            for sx in mir.subterms(room_arg):
+                if sx[0] == "var" and len(sx) > 2:
+                    col = mir.elem_collection(pm, sx)
+                    if col is not None:
+                        colx = pm.local_term(col[2], 0, True) if col[0] == "var" and len(col) > 2 else col
+                        if mir.has_call(colx, r"RoomAuthorisations::validate_mutation$") is not None:
+                            from_validation = True
+        C.ob("R3", "room-recomputed-at-commit:%s" % arm, revalidated and from_validation, pm.loc(bi),
+             "add_room installs %s" % ("the result of validate_mutation evaluated in the %s arm against the actor's current rooms" % arm if revalidated and from_validation else
+                                       "a room that was computed before the write was queued (carried in the write message): acknowledged changes of a concurrently committed mutation of the same room are overwritten in memory"))
+    C.floor("R3", "room installs after a committed room mutation", n, 2)
